@@ -124,6 +124,67 @@ Proof.
   destruct (HP x o Hl Ho Hf) as (Hpar & Hnp). split; [eapply has_parent_move; eauto|]. destruct E as (E1 & _). rewrite E1. exact Hnp.
 Qed.
 
+(** ---- TM3 through connectNamedObjArgs: the abstract invariant [SH3] = [SH] /\ [TM3] ---- *)
+Definition SH3 (s : pstate) (g : ghost) : Prop := SH s g /\ TM3 (p_tree s) g.
+
+Lemma SH3_setname s g a nm : TI s g -> SH3 s g -> tgt_ok s g a -> SH3 (with_tree s (tset (p_tree s) a (set_name nm))) g.
+Proof.
+  intros HT (HS & HTM) Hok. split; [apply SH_setname; assumption|].
+  cbn [p_tree with_tree]. set (t2 := tset (p_tree s) a (set_name nm)).
+  assert (Hfwd : forall i o, tget (p_tree s) i = Some o -> exists o2, tget t2 i = Some o2 /\ sameobj o o2 /\ o_value o2 = o_value o).
+  { intros i o Ho. unfold t2. rewrite get_tset, Ho. cbn [option_map]. destruct (i =? a); eexists; (split; [reflexivity|]); split; try reflexivity; repeat split. }
+  assert (Hback : forall i o2, tget t2 i = Some o2 -> exists o, tget (p_tree s) i = Some o /\ sameobj o o2).
+  { intros i o2 Hg. unfold t2 in Hg. rewrite get_tset in Hg. destruct (tget (p_tree s) i) as [o|] eqn:E; [|destruct (i =? a); discriminate].
+    exists o. split; [reflexivity|]. destruct (i =? a); cbn [option_map] in Hg; inversion Hg; subst o2; repeat split. }
+  eapply TM3_step; [exact HTM|exact Hback| |].
+  - intros i o Ho. destruct (Hfwd i o Ho) as (o2 & Ho2 & So & _). eauto.
+  - intros m mo a0 a1 rest a1o Hm Hop Hkm Hk0 Ha1. split; [exists rest; exact Hkm|]. split; [exact Hk0|].
+    intros a1o2 Ha12. destruct (Hfwd a1 a1o Ha1) as (o2 & Ho2 & _ & Hv). assert (o2 = a1o2) by congruence. subst. exact Hv.
+Qed.
+
+Lemma SH3_attach s g parent target sib l1 l2 (t2 : T) g2 : TI s g -> SH3 s g ->
+  kids g parent = l1 ++ target :: sib :: l2 -> tgt_ok s g target ->
+  pframe (p_tree s) t2 -> shape_eq g g2 -> roots_iff g g2 ->
+  (forall q, kids g2 q = (if q =? parent then remove1 sib (kids g parent) else kids g q) ++ (if q =? target then [sib] else [])) ->
+  SH3 (with_tree s t2) g2.
+Proof.
+  intros HT (HS & HTM) Hkp Hok Hpf S2 R2 Hk. split; [eapply SH_attach; eauto|].
+  destruct Hok as (ao & op & fl & af & Hao & Erow & En & Eh & Eo & Ek).
+  pose proof (ti_R _ _ HT) as HR.
+  assert (Hin_t : In target (kids g parent)) by (rewrite Hkp; apply in_or_app; right; left; reflexivity).
+  destruct (TI_live_get _ _ _ HT (proj1 ((R_gwf _ _ HR) _ _ Hin_t))) as (po & Hpo & Hlpo).
+  destruct (R_kids _ _ HR _ _ Hpo Hlpo) as (_ & _ & _ & Hnd). rewrite Hkp in Hnd.
+  cbn [p_tree with_tree]. eapply TM3_step; [exact HTM|apply pframe_back; exact Hpf|apply pframe_fwd; exact Hpf|].
+  intros m mo a0 a1 rest a1o Hm Hop Hkm Hk0 Ha1.
+  destruct (HTM m mo Hm Hop) as (b0 & b1 & r & b0o & b1o & w & K1 & K2 & K3 & K4 & K5 & K6 & K7 & K8 & K9).
+  rewrite Hkm in K1. injection K1 as <- <- <-.
+  assert (Ht0 : target <> a0) by (intros ->; assert (b0o = ao) by congruence; subst; rewrite (np_not_named _ _ _ _ K4 Erow) in En; discriminate).
+  assert (Ht1 : target <> a1) by (intros ->; assert (b1o = ao) by congruence; subst; rewrite (bp_not_named _ _ _ _ K8 Erow) in En; discriminate).
+  split; [|split].
+  - rewrite Hk. destruct (N.eqb_spec m parent) as [->|Hmp].
+    + assert (Hs0 : sib <> a0 /\ sib <> a1).
+      { rewrite Hkp in Hkm. destruct l1 as [|b l1']; cbn [app] in Hkm.
+        - injection Hkm as E0 _ _. exfalso. apply Ht0. exact E0.
+        - injection Hkm as E0 Hkm'. subst b. cbn [app] in Hnd. apply NoDup_cons_iff in Hnd. destruct Hnd as (Hn0 & Hnd').
+          split; [intros E; apply Hn0; rewrite <- E; apply in_or_app; right; right; left; reflexivity|].
+          destruct l1' as [|b' l1'']; cbn [app] in Hkm'.
+          + injection Hkm' as E1 _. exfalso. apply Ht1. exact E1.
+          + injection Hkm' as E1 _. subst b'. cbn [app] in Hnd'. apply NoDup_cons_iff in Hnd'. destruct Hnd' as (F & _).
+            intros E. apply F. rewrite <- E. apply in_or_app. right. right. left. reflexivity. }
+      destruct Hs0 as (S0 & S1). rewrite Hkm, (remove1_two sib a0 a1 rest S0 S1).
+      destruct (parent =? target); cbn [app]; eexists; reflexivity.
+    + destruct (N.eqb_spec m target) as [->|_]; [rewrite Hkm; cbn [app]; eexists; reflexivity|rewrite app_nil_r; exists rest; exact Hkm].
+  - rewrite Hk.
+    assert (E0p : (a0 =? parent) = false) by (apply N.eqb_neq; intros ->; rewrite Hk0 in Hin_t; contradiction).
+    assert (E0t : (a0 =? target) = false) by (apply N.eqb_neq; intros E; apply Ht0; symmetry; exact E).
+    rewrite E0p, E0t, app_nil_r. exact Hk0.
+  - intros a1o2 Ha12. destruct (proj2 Hpf _ _ Ha1) as (o' & Ho' & E). assert (o' = a1o2) by congruence. subst.
+    destruct E as (_ & _ & _ & _ & _ & _ & _ & E8). exact E8.
+Qed.
+
+Lemma SH3_conn : forall fuel, CN_spec2 SH3 fuel.
+Proof. intros fuel. exact (proj1 (conn_all2 SH3 SH3_setname SH3_attach fuel)). Qed.
+
 (** ---- connectNamedObjArgs touches neither the reader nor the stacks nor the size of the pool ---- *)
 Lemma attachSiblings_go_quiet fuel : forall par tgt sib n up, quiet (attachSiblings_go fuel par tgt sib n up).
 Proof.
@@ -158,7 +219,7 @@ Proof. reflexivity. Qed.
 
 Theorem rest2_never_panics : forall fuel s g,
   R (p_tree s) g -> info_valid (p_tree s) -> rok (p_r s) -> p_scopeStack s = [] -> IV s ->
-  SH s g -> typed (p_tree s) ->
+  SH3 s g -> typed (p_tree s) ->
   lp s + lp s * (8 * r_len (p_r s) + 3) + 4 <= InvalidIndex ->
   match parse_rest2 fuel s with
   | Ok (_, s') => exists g', R (p_tree s') g' /\ info_valid (p_tree s') /\ pool_ok (p_tables s') (p_tree s')
@@ -175,7 +236,7 @@ Proof.
     apply (wp_bind_inv tbls _ _ _ _ _ I0); [apply (proj1 (hoare_connectNamed tbls fuel))|].
     eapply wp_weaken; [apply (wp_and_pc _ _ _ _ (fun _ s' => (p_r s' = p_r s /\ p_scopeStack s' = p_scopeStack s /\
                                   length (t_pool (p_tree s')) = length (t_pool (p_tree s))) /\ typed (p_tree s'))
-                         (proj1 (conn_all2 SH SH_setname SH_attach fuel) 0 s g HT HS (proj1 HS)))|auto|].
+                         (SH3_conn fuel 0 s g HT HS (proj1 (proj1 HS))))|auto|].
     - intros a s' E. split; [apply (proj1 (connectNamed_quiet fuel) 0 s a s' E)|apply (proj1 (connectNamed_tyk fuel) 0 s a s' E Htyp)].
     - intros r2 s1 ((g1 & [A B C] & HS1 & _) & (Q1 & Q2 & Q3) & Ht1) I1.
       destruct (pres_eqb r2 ROk); cbn [negb].
@@ -183,7 +244,8 @@ Proof.
       apply wp_bind. apply wp_counters.
       set (s2 := with_counters s1 1 (p_mergedScopes s1) (p_relocatedObjects s1)).
       assert (I2 : IV s2) by (destruct I1 as [J1 J2 J3 J4 J5]; constructor; assumption).
-      destruct HS1 as (K0 & K1 & K2 & K3 & K4 & K5).
+      destruct HS1 as ((K0 & K1 & K2 & K3 & K4 & K5) & K6).
+      assert (K6' : TM3 (p_tree s2) g1) by exact K6.
       pose proof (rest_never_panics tbls fuel s2 g1 A B) as T.
       unfold wp. destruct (parse_rest fuel s2) as [[b s']| |] eqn:Et; auto; apply T; auto;
         try (unfold s2; cbn [p_r with_counters]; rewrite Q1; exact Hrk); try (unfold s2; cbn [p_scopeStack with_counters]; rewrite Q2; exact Hst);
@@ -200,6 +262,7 @@ Hypothesis K_walk : forall f4 pf s g s1 g1, WI s g -> parseDeferredBlocks f4 pf 
   K (p_tree s) g -> K (p_tree s1) g1.
 Variable KI : pstate -> ghost -> Prop.
 Hypothesis KI_KS : forall s g, KI s g -> KS s g.
+Hypothesis KI_TM : forall s g, KI s g -> TM NoX s g.
 Hypothesis KI_loop : forall wf fuel s g, MI KI NoX s g ->
   wp True (resolve_loop fuel wf) s (fun _ s' => exists g', MI KI NoX s' g').
 Hypothesis K_start : forall s g, MI KI NoX s g -> K (p_tree s) g.
@@ -235,7 +298,7 @@ Proof.
       set (s2 := with_counters s1 1 (p_mergedScopes s1) (p_relocatedObjects s1)).
       assert (I2 : IV s2) by (destruct I1 as [J1 J2 J3 J4 J5]; constructor; assumption).
       destruct (J_SH _ _ HJ1) as (K0 & K1 & K2 & K3 & K4 & K5).
-      pose proof (rest_post tbls K K_move K_upd K_walk KI KI_KS KI_loop K_start fuel s2 g1 A B) as T.
+      pose proof (rest_post tbls K K_move K_upd K_walk KI KI_KS KI_TM KI_loop K_start fuel s2 g1 A B) as T.
       unfold wp. destruct (parse_rest fuel s2) as [[b s']| |] eqn:Et; auto; apply T; auto;
         try (unfold s2; cbn [p_r with_counters]; rewrite Q1; exact Hrk); try (unfold s2; cbn [p_scopeStack with_counters]; rewrite Q2; exact Hst);
         try (unfold lp, s2 in *; cbn [p_r p_tree with_counters]; rewrite Q1, Q3; exact Hcap);
@@ -248,13 +311,13 @@ End Pass2.
 Lemma rest2_hyps_example :
   exists (s : pstate) (g : ghost),
     R (p_tree s) g /\ info_valid (p_tree s) /\ rok (p_r s) /\ p_scopeStack s = [] /\ Inv (p_tables s) s /\
-    SH s g /\ typed (p_tree s) /\
+    SH3 s g /\ typed (p_tree s) /\
     lp s + lp s * (8 * r_len (p_r s) + 3) + 4 <= InvalidIndex /\
     match parse_rest2 10 s with Ok (b, s') => b = true /\ lp s' = 4 | _ => False end.
 Proof.
   pose proof dex0_hyps as H. cbv zeta in H. destruct H as (A & B & C & D & E & F & G & H1 & H2 & H3 & H4 & H5 & H6).
   exists dex0_state, dex_ghost.
   split; [exact A|]. split; [exact B|]. split; [exact C|]. split; [exact D|]. split; [exact E|].
-  split; [split; [exact F|]; split; [exact G|]; split; [exact H1|]; split; [exact H2|]; split; [exact H3|exact H4]|].
+  split; [split; [split; [exact F|]; split; [exact G|]; split; [exact H1|]; split; [exact H2|]; split; [apply TM3_TM2; exact H3|exact H4]|exact H3]|].
   split; [exact H5|]. split; [exact H6|]. vm_compute. split; reflexivity.
 Qed.
